@@ -157,10 +157,51 @@ func genHist(r *Rng, tier string, n int, emit func(string)) {
 		for i := 0; i < k; i++ {
 			m := Pick(cr, methods)
 			p := Pick(cr, pool)
+			if cr.Chance(6) && !strings.HasSuffix(p, "}") {
+				// a branching leaf is built (committed), then one transaction deletes / updates it and writes below it
+				sep := "/"
+				if strings.HasSuffix(p, "/") {
+					sep = ""
+				}
+				for _, q := range []string{p, p + sep + "a1", p + sep + "b1"} {
+					hid++
+					ops = append(ops, fmt.Sprintf("H,%s,%s,%d,%d", m, hx(q), 0, hid))
+				}
+				first := "D:" + m + ":" + hx(p)
+				if cr.Chance(30) {
+					hid++
+					first = fmt.Sprintf("U:%s:%s:%d:%d", m, hx(p), 1, hid)
+				}
+				hid += 2
+				ops = append(ops, "G,"+Pick(cr, []string{"e", "e", "o"})+","+first+"&"+
+					fmt.Sprintf("H:%s:%s:%d:%d", m, hx(p+sep+"a1/x"), 0, hid-1)+"&"+fmt.Sprintf("U:%s:%s:%d:%d", m, hx(p+sep+"b1"), 2, hid))
+				continue
+			}
 			switch x := cr.Intn(22); {
 			case x >= 20:
 				// a write transaction with a few writes, aborted most of the time
 				var in []string
+				if cr.Chance(35) {
+					// a route is deleted (or updated) and routes below / next to it are then written in the same transaction:
+					// the nodes rebuilt by the first write are walked again by the later ones
+					gm, gp := Pick(cr, methods), Pick(cr, pool)
+					if cr.Bool() {
+						in = append(in, "D:"+gm+":"+hx(gp))
+					} else {
+						hid++
+						in = append(in, fmt.Sprintf("U:%s:%s:%d:%d", gm, hx(gp), Pick(cr, []int{0, 1, 2}), hid))
+					}
+					for _, q := range pool {
+						if q != gp && strings.HasPrefix(q, gp) && cr.Chance(60) {
+							hid++
+							in = append(in, fmt.Sprintf("%s:%s:%s:%d:%d", Pick(cr, []string{"H", "U", "U"}), gm, hx(q), Pick(cr, []int{0, 1, 2}), hid))
+						}
+					}
+					if !strings.HasSuffix(gp, "}") {
+						hid++
+						in = append(in, fmt.Sprintf("H:%s:%s:%d:%d", gm, hx(gp+Pick(cr, []string{"zz", "/zz", "z/{q}"})), 0, hid))
+					}
+				}
 				for j, nj := 0, 1+cr.Intn(4); j < nj; j++ {
 					gm, gp := Pick(cr, methods), Pick(cr, pool)
 					switch y := cr.Intn(10); {
